@@ -36,16 +36,22 @@ def structure_corpus():
     out += [('metersym', x) for x in G.METERSYMS]
     out += [('staff', x) for x in ('*staff1', '*staff2', '*staff1/2', '*staff+1', '*staff12')]
     out += [('bbox', x) for x in ('*xywh-1:10,20,30,40', '*xywh-12:0,0,100,200')]
+    # the generator's own staff and bounding-box interpretations (numbers at the edges: zero, leading zeros, many digits)
+    out += [('staff' if x.startswith('*staff') else 'bbox', x) for x in G.TANDEMS if is_structural_tandem(x) and ('staff', x) not in out
+            and ('bbox', x) not in out]
     return out
+
+
+def is_structural_tandem(x):
+    return x.startswith('*staff') or x.startswith('*xywh')
 
 
 def other_corpus(rng, n_notes):
     out = []
-    structural_tandems = {'*staff1', '*staff2', '*staff1/2', '*xywh-1:10,20,30,40'}
-    out += [('tandem', x) for x in G.TANDEMS if x not in structural_tandems]
+    out += [('tandem', x) for x in G.TANDEMS if not is_structural_tandem(x)]
     # interpretations with a parameter the kern grammar may or may not know (*above:2, *centered:1, *below:12, *MM120x ...): a non-kern
     # spine keeps the whole cell
-    out += [('tandem', x + sfx) for x in G.TANDEMS if x not in structural_tandems and not x.startswith('*xywh')
+    out += [('tandem', x + sfx) for x in G.TANDEMS if not is_structural_tandem(x)
             for sfx in (':2', ':12', 'x', '.5')]
     out += [('text', x) for x in G.WORDS + G.HOSTILE_WORDS + G.SEPARATOR_WORDS]
     # cells made only of blanks: a token like any other in a non-kern spine (its text, its spine's own category)
